@@ -102,18 +102,28 @@ theorem add_of_not_collides {b : Bank} {c : ClassDef} (h : collides b c = false)
   unfold Bank.add
   by_cases ha : c.abstract = true <;> simp [h, ha]
 
+/-- `Meta.__eq__` is equality of (module, qualname) -/
+theorem metaEq_iff (a b : ClassId) : metaEq a b = true ↔ a = b := by
+  obtain ⟨am, aq⟩ := a
+  obtain ⟨bm, bq⟩ := b
+  simp [metaEq]
+
+/-- classes that `Meta.__eq__` identifies have the same `Meta.__hash__` (what a `dict` keyed by classes needs) -/
+theorem metaHash_of_eq (hashOf : Nat → Nat) (a b : ClassId) (h : metaEq a b = true) : metaHash hashOf a = metaHash hashOf b := by
+  rw [(metaEq_iff a b).1 h]
+
 theorem collides_false_iff (b : Bank) (c : ClassDef) :
     collides b c = false ↔ ∀ r ∈ refs c, ∀ d, lookupRef r b.provider = some d → d = c.id := by
   simp only [collides, List.any_eq_false]
   constructor
   · intro h r hr d hd
     have := h r hr
-    simp [hd] at this
-    exact this
+    simp only [hd, Bool.not_eq_true'] at this
+    exact (metaEq_iff d c.id).1 (by simpa using this)
   · intro h r hr
     cases hd : lookupRef r b.provider with
     | none => simp
-    | some d => simp [h r hr d hd]
+    | some d => simp [h r hr d hd, (metaEq_iff c.id c.id).2 rfl]
 
 /-! ### soundness: every binding is justified by a concrete class bearing the reference -/
 
